@@ -893,9 +893,13 @@ class BaseWorkflow(object, metaclass=abc.ABCMeta):
 
         # 2. Update the information of critical path of this workflow.
         self.critical_path_length = max(output_task_set, key=lambda task: task.eft).eft
+        # tasks whose lst / lft have been computed in this pass (a computed value can be 0.0 or,
+        # by floating point rounding, a tiny negative number: "lft < 0" is not a safe "unset" test)
+        computed_task_set = dict()
         for task in output_task_set:
             task.lft = self.critical_path_length
             task.lst = task.lft - task.remaining_work_amount
+            computed_task_set[task] = True
 
         # 3. Calculate PERT information of all tasks
         while len(output_task_set) > 0:
@@ -924,9 +928,10 @@ class BaseWorkflow(object, metaclass=abc.ABCMeta):
                     else:
                         lft = output_task.lst
                         lst = lft - prev_task.remaining_work_amount
-                    if pre_lft < 0 or pre_lft >= lft:
+                    if prev_task not in computed_task_set or pre_lft >= lft:
                         prev_task.lst = lst
                         prev_task.lft = lft
+                        computed_task_set[prev_task] = True
                     prev_task_set[prev_task] = True
 
             output_task_set = prev_task_set
